@@ -33,12 +33,18 @@ def plan(tier, seed):
 def minimums(tier):
     return {"plid.queries": 3000, "plid.short_id_queries": 500, "bmcid.queries": 1000, "id.queries": 1000, "src.queries": 2000,
             "srcexclude.queries": 300, "found.hidden_or_nonserviceable": 1000, "notfound.queries": 300,
-            "bmcid.zero_queries": 40, "bmcid.queries_with_unopenable_entries": 300}
+            "bmcid.zero_queries": 40, "bmcid.queries_with_unopenable_entries": 300, "lookups.hex_display": 1000}
 
 
 def forms(rng, v):
     h = "%08X" % v
     return [h, h.lower(), "0x" + h, "0X" + h.lower(), "0x" + h.lower()]
+
+
+def hexopt(rng):
+    """a quarter of the list look-ups display their matches as hex dumps (-x / --hex, before or after is the caller's)"""
+    r = rng.random()
+    return ["-x"] if r < 0.15 else ["--hex"] if r < 0.25 else []
 
 
 def build(rng, u, reg, root, i):
@@ -111,8 +117,13 @@ def run(spec, ctx):
             if out is None:
                 return
             try:
-                got = [eid for eid, _ in cliparse.parse_list(out)]
-            except BadOutput as e:
+                if "-x" in argv or "--hex" in argv:
+                    # hex display of the matches: each dump is one PEL file, identified by the entry id it holds
+                    ctx.count("lookups.hex_display")
+                    got = [int.from_bytes(b[44:48], "big") for b in cliparse.parse_hex(out)]
+                else:
+                    got = [eid for eid, _ in cliparse.parse_list(out)]
+            except (BadOutput, IndexError) as e:
                 ctx.violation("C10/%s/malformed" % what, "peltool %s: %s" % (argv, e))
                 return
             want = sorted(e.pel.eid for e in want_ents)
@@ -141,7 +152,7 @@ def run(spec, ctx):
                 want = [e for e in ents if e.pel.plid == v]
                 ctx.case("plid%s|%r" % (f, desc), bool(want) or v < 0x10000000,
                          sample={"argv": ["--plid", f], "matches": len(want)} if i == 0 and f == "%08X" % v else None)
-                expect_list(["--plid", f], want, "plid", "platform log id %#x" % v)
+                expect_list(["--plid", f] + hexopt(rng), want, "plid", "platform log id %#x" % v)
         # --bmc-id
         for e in ents + [None, None]:
             n = e.pel.bmcid if e else rng.randrange(1 << 32)
@@ -198,7 +209,7 @@ def run(spec, ctx):
             ctx.count("src.queries")
             want = [e for e in with_src if s in e.pel.primary_src().m["refcode"]]
             ctx.case("src%s|%r" % (s, desc), True)
-            expect_list(["--src", s], want, "src", "reference code contains %r" % s)
+            expect_list(["--src", s] + hexopt(rng), want, "src", "reference code contains %r" % s)
         # --src-exclude
         for k in sorted({0, 1, len(with_src) // 2, len(with_src)}):
             listed = rng.sample(with_src, min(k, len(with_src)))
@@ -210,7 +221,7 @@ def run(spec, ctx):
             ctx.count("srcexclude.queries")
             want = [e for e in with_src if e not in listed]
             ctx.case("excl%r|%r" % ([x.name for x in listed], desc), True)
-            expect_list(["--src-exclude", path], want, "src-exclude", "reference code not in %s" %
+            expect_list(["--src-exclude", path] + hexopt(rng), want, "src-exclude", "reference code not in %s" %
                         [x.pel.primary_src().m["refcode"] for x in listed][:5])
             os.unlink(path)
         d.remove()
